@@ -19,6 +19,7 @@ sys.path.insert(0, ROOT)
 LEDGER = os.path.join(ROOT, "baseline_obligations.json")
 FINDINGS = os.path.join(ROOT, "known_findings.json")
 VENV_PY = "/venv/bin/python"
+STRICT = os.environ.get("VERIF_STRICT", "1") != "0"
 
 ASSUMPTIONS = [
     "A1 module/class-level names are bound once and not monkey-patched",
@@ -158,6 +159,7 @@ def main():
         prev = ledger.get(prop, {})
         ledger[prop] = {oid: {"status": r["status"], "strategy": r.get("strategy") or (prev.get(oid, {}).get("strategy") if isinstance(prev.get(oid), dict) else None)}
                         for oid, r in sorted(obl.items())}
+        ledger.setdefault("__deps__", {})[prop] = {q: r.get("deps") for q, r in sorted(proofs.items()) if r.get("deps")}
         json.dump(ledger, open(LEDGER, "w"), indent=1, sort_keys=True)
         print("ledger updated for %s: %d obligations, %d discharged" % (prop, len(obl), sum(1 for r in obl.values() if r["status"] == "discharged")))
 
@@ -166,6 +168,30 @@ def main():
 
     native = None if a.no_native else run_native(prop, tier, seed, src)
 
+    # A proof that was complete in the committed ledger and is not completed now.  If the source text the VCs
+    # were generated from (the function and every callee executed in line) is byte-identical to the ledger's,
+    # the VC is the same formula and the miss is solver noise: it only degrades.  If the source CHANGED, the
+    # function is verified again with four times the budget; what still fails then is a failed obligation of
+    # changed code and is reported (with the stand-in's failing input when there is one).
+    base_deps = ledger.get("__deps__", {}).get(prop, {})
+    changed_fns = set()
+    for oid, r in obl.items():
+        q = r.get("function")
+        if r["status"] != "discharged" and q and base.get(oid) == "discharged" and q in base_deps and proofs.get(q, {}).get("deps") and proofs[q]["deps"] != base_deps[q]:
+            changed_fns.add(q)
+    escalated = {}
+    if changed_fns and not a.update_ledger:
+        again = run_proofs(sorted(changed_fns), src, timeout_ms * 4, workers, hints)
+        for q, r2 in again.items():
+            for oid, res in r2["results"].items():
+                if oid in obl and obl[oid]["status"] != "discharged":
+                    if "lemmas.canary_" in oid:
+                        continue
+                    escalated[oid] = res["status"]
+                    if res["status"] == "discharged":
+                        obl[oid] = dict(res, function=q, note="discharged on the second attempt (4x budget)")
+                    else:
+                        obl[oid] = dict(res, function=q, source_changed=True)
     bad = {oid: r for oid, r in obl.items() if r["status"] != "discharged"}
     known_lines, suppressed_obl, suppressed_native = [], set(), []
     for f in open_f:
@@ -192,10 +218,13 @@ def main():
         for oid, r in sorted(unlisted_bad.items()):
             was = base.get(oid)
             closed_static = r["status"] == "refuted" and r.get("complete") and r.get("backend") in ("static-scan", "lean")
-            if closed_static or (r["status"] == "refuted" and was == "discharged" and (r.get("complete") or not _has_ghost_folds(r))):
+            failed_changed = STRICT and was == "discharged" and r.get("source_changed")
+            if closed_static or failed_changed or (r["status"] == "refuted" and was == "discharged" and (r.get("complete") or not _has_ghost_folds(r))):
                 path = os.path.join(rdir, "refuted_%s.py" % "".join(ch if ch.isalnum() else "_" for ch in oid))
-                body = "print(%r)\nprint(%r)\nsys.exit(1)\n" % ("obligation %s was discharged on the baseline and is now refuted by the solver" % oid,
-                                                               (r.get("model") or "")[:3000])
+                why = ("obligation %s was discharged on the baseline and is now refuted by the solver" % oid) if r["status"] == "refuted" else \
+                      ("obligation %s was discharged on the baseline; the source of %s changed and the obligation is no longer discharged (%s: %s), "
+                       "also not with four times the solver budget" % (oid, r.get("function"), r["status"], (r.get("note") or "")[:200]))
+                body = "print(%r)\nprint(%r)\nsys.exit(1)\n" % (why, (r.get("model") or r.get("note") or "")[:3000])
                 write_replay(path, prop, [oid], "solver counter-model only; no failing input found in the bounded stand-in", body)
                 violations.append("VIOLATION property=%s replay=%s obligation=%s no-failing-input-found" % (prop, path, oid))
             else:
